@@ -7,6 +7,15 @@ from tlc import ToolError, VERIF, WORK, SPEC  # noqa: E402
 
 HARNESS_DIR = os.path.join(VERIF, "harness")
 HARNESS_BIN = os.path.join(HARNESS_DIR, "target", "debug", "verif-harness")
+# simulated architectures / platforms: a crate of its own (textual builds of the repository's sources against shims)
+SIM_DIR = os.path.join(VERIF, "harness_sim")
+SIM_BIN = os.path.join(SIM_DIR, "target", "debug", "verif-harness-sim")
+SIM_DRIVERS = ("sim", "winsim", "platsim")
+SIM_BUILD_ERROR = None
+
+
+class SimUnavailable(ToolError):
+    """the simulated builds cannot follow the library's current sources (they no longer compile against the shims)"""
 REPLAYS = os.path.join(WORK, "replays")
 EVIDENCE = os.path.join(VERIF, "evidence")
 FINDINGS = os.path.join(VERIF, "KNOWN_FINDINGS.jsonl")
@@ -38,6 +47,14 @@ def build_harness(timeout=900):
                        stdout=subprocess.PIPE, stderr=subprocess.STDOUT, text=True, timeout=timeout)
     if p.returncode != 0:
         raise ToolError("harness build failed:\n" + p.stdout[-4000:])
+    global SIM_BUILD_ERROR
+    slock = os.path.join(SIM_DIR, "Cargo.lock")
+    if not os.path.exists(slock):
+        import shutil
+        shutil.copy(os.path.join(REPO, "Cargo.lock"), slock)
+    q = subprocess.run(["cargo", "build", "--offline", "--quiet"], cwd=SIM_DIR, env=cargo_env(),
+                       stdout=subprocess.PIPE, stderr=subprocess.STDOUT, text=True, timeout=timeout)
+    SIM_BUILD_ERROR = None if q.returncode == 0 else q.stdout[-3000:]
     return time.time() - t0
 
 
@@ -55,8 +72,11 @@ def run_harness(driver, scenarios, name, timeout=1200, env_extra=None, args=None
     env["VERIF_SEED"] = str(seed())
     if env_extra:
         env.update(env_extra)
+    if driver in SIM_DRIVERS and SIM_BUILD_ERROR:
+        raise SimUnavailable("the simulated build of the repository's sources failed:\n" + SIM_BUILD_ERROR)
+    binary = SIM_BIN if driver in SIM_DRIVERS else HARNESS_BIN
     try:
-        p = subprocess.run([HARNESS_BIN, driver, script, out] + (args or []), env=env, stdout=subprocess.PIPE,
+        p = subprocess.run([binary, driver, script, out] + (args or []), env=env, stdout=subprocess.PIPE,
                            stderr=subprocess.STDOUT, text=True, timeout=timeout, errors="replace")
     except subprocess.TimeoutExpired:
         raise ToolError("harness driver %s timed out" % driver)
@@ -182,6 +202,14 @@ class Run:
         with open(path, "w") as f:
             json.dump({"property": self.prop, "key": key, "replay": replay_obj}, f, indent=1, default=str)
         self.violations.append((key, path))
+
+    def sim_part(self, name, fn):
+        """run a part of the check that needs the simulated builds; if they are unavailable the part is skipped, loudly"""
+        try:
+            fn()
+        except SimUnavailable as e:
+            print("NOTE: %s: part '%s' skipped -- %s" % (self.prop, name, str(e).splitlines()[0]))
+            self.extra.setdefault("sim_parts_skipped", []).append({"part": name, "why": str(e)[-1500:]})
 
     def finish(self):
         if HUNG_RUNS and not self.violations and not self.known_hits:
